@@ -436,18 +436,18 @@ Proof.
   destruct y as [[[a b] [c d] vol dur ino nxt st] p fr]. cbn in *. subst b d.
   destruct a, c; try (specialize (a3 eq_refl); discriminate a3).
   - (* node directory exists *)
-    cfs. cbn [app]. cfs.
+    unfold plan_node_dir, exists_T, exists_N. cbn [f_rootT f_TN fst snd andb app]. cfs.
     split; [split; [exact H0|split; [exact H0|exact I]]|].
     split; [reflexivity|split; [reflexivity|intros Hf; discriminate Hf]].
   - (* T exists, N does not *)
     destruct (HB eq_refl) as [-> ->]. clear H0 HB.
-    cfs. cbn [app]. cfs. rewrite !dur_state_nocur by reflexivity.
+    unfold plan_node_dir, exists_T, exists_N. cbn [f_rootT f_TN fst snd andb app]. cfs. rewrite !dur_state_nocur by reflexivity.
     split.
     + splits; try exact I; (apply mid_ok_nocur; [reflexivity|split; intros i Hi; discriminate Hi|constructor]).
     + split; [reflexivity|split; [reflexivity|intros _; split; reflexivity]].
   - (* neither exists *)
     destruct (HB eq_refl) as [-> ->]. clear H0 HB.
-    cfs. cbn [app]. cfs. rewrite !dur_state_nocur by reflexivity.
+    unfold plan_node_dir, exists_T, exists_N. cbn [f_rootT f_TN fst snd andb app]. cfs. rewrite !dur_state_nocur by reflexivity.
     split.
     + splits; try exact I; (apply mid_ok_nocur; [reflexivity|split; intros i Hi; discriminate Hi|constructor]).
     + split; [reflexivity|split; [reflexivity|intros _; split; reflexivity]].
@@ -455,10 +455,12 @@ Qed.
 
 (** obligations about inode numbers and directory names on explicit views *)
 Ltac ino_tac :=
-  split; intros ?i ?Hi; cbn in *;
-  first [ discriminate
-        | match goal with H : Some _ = Some _ |- _ => injection H as <-; lia end
-        | match goal with Hb : forall j, ?o = Some j -> j < _, H : ?o = Some _ |- _ => specialize (Hb _ H); lia end ].
+  split;
+  (let j := fresh "j" in let Hj := fresh "Hj" in
+   intros j Hj; cbn in Hj; cbn [f_next];
+   first [ discriminate Hj
+         | injection Hj as <-; lia
+         | match goal with Hb : forall j', ?o = Some j' -> j' < _ |- _ => specialize (Hb _ Hj); lia end ]).
 
 (** ---- first Open: create the store directory, make it durable, publish the pointer, open the store *)
 Lemma first_run_ok (vu du : option N) (vd dd : list N) ino nxt st f fr L1 :
@@ -524,7 +526,7 @@ Proof.
       * apply filter_In. split; [exact Hd|]. apply negb_true_iff. apply N.eqb_neq. congruence.
       * unfold dbs_ok in *. cbn in *. apply Forall_forall. intros z Hz. apply filter_In in Hz.
         rewrite Forall_forall in Hdb. apply Hdb. apply Hz.
-    + cbn [exec_step]. repeat split; assumption.
+    + cbn [exec_step]. exact (conj Hsd (conj Hc (conj Hd (conj Hi Hdb)))).
 Qed.
 
 Lemma plan_good_open y : WF y -> plan_good y OOpen.
@@ -548,6 +550,7 @@ Proof.
     destruct y as [[rT tN [vc vu vd] [dc du dd] ino nxt st] p fr]. cbn in *. subst vc dc.
     destruct (first_run_ok vu du vd dd ino nxt st fr (fr + 1) kv_init f1b f2b f3 f4 ltac:(lia))
       as (Hall & ino' & Hfin & Hdat & Hsyn).
+    unfold save_ptr, replace_ptr in Hall, Hfin. cbn [app] in Hall, Hfin.
     unfold norm in *. cbn [f_vol f_dur f_ino f_next f_st] in *.
     split.
     + apply all_prefixes_app; [exact Hpre|]. rewrite Hex. exact Hall.
@@ -561,8 +564,8 @@ Proof.
         -- reflexivity.
         -- intros i Hi. injection Hi as <-. exists fr. repeat split; try assumption; now left.
         -- intros d1. unfold fupd. destruct (d1 =? fr); [reflexivity|apply e].
-        -- ino_tac.
-        -- ino_tac.
+        -- split; intros j Hj; cbn in Hj; [injection Hj as <-; cbn; lia|discriminate Hj].
+        -- split; intros j Hj; cbn in Hj; [injection Hj as <-; cbn; lia|discriminate Hj].
         -- constructor; [lia|]. apply Forall_lt_succ. exact f3.
         -- constructor; [lia|]. apply Forall_lt_succ. exact f3.
         -- intros d1 Hd1. injection Hd1 as <-. split; [reflexivity|]. exists nxt.
@@ -586,7 +589,7 @@ Proof.
       split; [apply (wF1 _ H)|]. apply Forall_lt_succ. apply (wF3 _ H). }
     destruct (all_prefixes_preserved (clean_inv (s_fresh y + 1) (s_fs y) i d) rest
                 (fun st m Hin Hm => clean_step _ _ _ _ st m Hin Hm) _ Hci) as [Hall Hend].
-    replace (plan_node_dir (s_fs y) ++ [SRemoveF FUpd] ++
+    replace ((plan_node_dir (s_fs y) ++ [SRemoveF FUpd] ++
              map SRemoveDb (filter (fun x => negb (x =? d)) (v_dbs (f_vol (s_fs y))))) ++ [SStOpen d])
       with (plan_node_dir (s_fs y) ++ rest) by (unfold rest; now rewrite <- !app_assoc).
     split.
@@ -603,8 +606,8 @@ Proof.
       * now rewrite s2.
       * now rewrite s1, s2.
       * unfold exists_N in *. rewrite s1, s2. intros Hf. rewrite Hf in HN. discriminate HN.
-      * rewrite Hc', s3, <- c. exact Hi.
-      * intros i' Hi'. rewrite Hc' in Hi'. injection Hi' as <-. exists d. rewrite s4, s3. repeat split; assumption.
+      * rewrite Hc', s3, <- c. symmetry. exact Hi.
+      * intros i2 Hi2. rewrite Hc' in Hi2. injection Hi2 as <-. exists d. rewrite s4, s3. repeat split; assumption.
       * intros d2. rewrite s6. apply e.
       * exact Hi'.
       * unfold ino_ok in *. rewrite s3, s5. exact f2.
@@ -612,6 +615,331 @@ Proof.
       * rewrite s3. apply Forall_lt_succ. exact f4.
       * intros d2 Hd2. injection Hd2 as <-. split; [unfold exists_N in *; now rewrite s1, s2|].
         exists i. rewrite s4, s6. repeat split; assumption.
+Qed.
+
+
+(** ---- RecoverFromSnapshot: build the new store, make it durable, switch the pointer, remove the old store *)
+Lemma recover_ok (vu du : option N) (vd dd : list N) ino nxt st i cur f fr x :
+  i < nxt -> (forall j, vu = Some j -> j < nxt) -> (forall j, du = Some j -> j < nxt) ->
+  Forall (fun d => d < f) vd -> Forall (fun d => d < f) dd -> f < fr ->
+  i_synced (ino i) = ptr cur -> In cur vd -> In cur dd ->
+  let s1 := mkFS (true, true) (true, true) (mkView (Some i) vu vd) (mkView (Some i) du dd) ino nxt st in
+  let steps := [SMkdirDb f; SSyncN; SStOpen f; SStBatch f true x] ++ save_ptr ck f ++ replace_ptr ++
+               [SStClose cur; SRemoveDb cur; SSyncN] in
+  all_prefixes (mid_ok fr (st_disk (st cur)) x) steps s1 /\
+  exists ino' vd',
+    exec steps s1 = mkFS (true, true) (true, true) (mkView (Some nxt) None vd') (mkView (Some nxt) None vd')
+                         ino' (nxt + 1) (fupd (fupd st f store0) f (mkStore x x)) /\
+    i_data (ino' nxt) = ptr f /\ i_synced (ino' nxt) = ptr f /\ In f vd' /\ Forall (fun d => d < fr) vd'.
+Proof.
+  intros Hi Hvu Hdu Hvd Hdd Hf Hsyn Hin1 Hin2 s1 steps.
+  assert (Hmem : memN f vd = false) by (apply memN_false_lt; exact Hvd).
+  assert (Hcf : cur < f) by (rewrite Forall_forall in Hvd; apply Hvd; exact Hin1).
+  assert (Hdd' : Forall (fun d => d < fr) dd) by (eapply Forall_impl; [|exact Hdd]; cbn beta; intros; lia).
+  assert (Hvd' : Forall (fun d => d < fr) (f :: vd)).
+  { constructor; [exact Hf|]. eapply Forall_impl; [|exact Hvd]. cbn beta; intros; lia. }
+  assert (Hflt : Forall (fun d => d < fr) (filter (fun x => negb (x =? cur)) (f :: vd))).
+  { apply Forall_forall. intros z Hz. apply filter_In in Hz. rewrite Forall_forall in Hvd'. apply Hvd', Hz. }
+  assert (Hinf : In f (filter (fun x => negb (x =? cur)) (f :: vd))).
+  { apply filter_In. split; [now left|]. apply negb_true_iff, N.eqb_neq. lia. }
+  assert (E1 : exec_step (SMkdirDb f) s1 =
+               mkFS (true, true) (true, true) (mkView (Some i) vu (f :: vd)) (mkView (Some i) du dd) ino nxt (fupd st f store0)).
+  { unfold s1. cbn [exec_step]. unfold fs_mkdir_db. cbn [f_vol v_dbs]. rewrite Hmem. reflexivity. }
+  unfold steps. cbv [save_ptr replace_ptr]. cbn [app].
+  split.
+  - cbn [all_prefixes]. rewrite E1. unfold s1. cfs.
+    splits; try exact I.
+    all: first
+      [ apply (mid_ok_cur fr _ _ _ i cur);
+        [reflexivity|cbn; fup; exact Hsyn|cbn; auto using in_cons|ino_tac|cbn; assumption|reflexivity
+        |left; cbn; fup; reflexivity]
+      | apply (mid_ok_cur fr _ _ _ nxt f);
+        [reflexivity|cbn; fup; reflexivity|cbn; first [now left|exact Hinf]|ino_tac|cbn; assumption|reflexivity
+        |right; cbn; fup; reflexivity] ].
+  - unfold exec. cbn [fold_left]. rewrite E1. cfs.
+    eexists. eexists. split; [reflexivity|]. cbn. fup. cbn. fup.
+    split; [reflexivity|]. split; [reflexivity|]. split; [exact Hinf|exact Hflt].
+Qed.
+
+
+Lemma plan_good_recover y dlt c : WF y -> plan_good y (ORecover dlt c).
+Proof.
+  intros H. destruct (in_contract (ORecover dlt c) (s_proc y)) eqn:Hc; [|now apply plan_good_skip].
+  unfold in_contract in Hc. destruct (p_db (s_proc y)) as [cur|] eqn:Hd; [clear Hc|discriminate Hc].
+  destruct (wf_up_dur_state y cur H Hd) as (Hst & Hlast & Hrd & Hin1 & Hin2).
+  destruct (wG _ H cur Hd) as (HN & i & Hi & Hdat & Hpl).
+  destruct (wD _ H i Hi) as (d' & Hdat' & Hsyn & _).
+  assert (d' = cur) as ->.
+  { rewrite Hdat in Hdat'. unfold ptr_bytes in Hdat'. now inversion Hdat'. }
+  unfold plan_good, plan, in_contract, plan_recover, up. rewrite Hd, Hrd. cbn [fst snd spec_op].
+  rewrite Hlast.
+  assert (Hst' : dur_state ck (s_fs y) = st_disk (f_st (s_fs y) cur)) by (rewrite Hst; apply (wE _ H)).
+  rewrite Hst'. clear Hst Hst' Hlast Hrd Hdat' Hpl.
+  pose proof (wC _ H) as Hc.
+  destruct H as [a1 a2 a3 b _ _ e [f1a f1b] [f2a f2b] f3 f4 _].
+  destruct y as [[[rT1 rT2] [tN1 tN2] [vc vu vd] [dc du dd] ino nxt st] [pdb pl] fr].
+  unfold exists_N in HN.
+  cbn [s_fs s_proc s_fresh p_db p_last f_rootT f_TN f_vol f_dur f_ino f_next f_st v_cur v_upd v_dbs fst snd] in *.
+  subst rT2 tN2 pdb vc dc.
+  apply andb_prop in HN. destruct HN as [-> ->].
+  destruct (recover_ok vu du vd dd ino nxt st i cur fr (fr + 1) (pl + dlt, c)
+              (f1a i eq_refl) f1b f2b f3 f4 ltac:(lia) Hsyn Hin1 Hin2)
+    as (Hall & ino' & vd' & Hfin & Hdat' & Hsyn' & Hinf & Hflt).
+  split; [exact Hall|].
+  eexists. split; [reflexivity|]. rewrite Hfin.
+  split; [|split; [|reflexivity]].
+  - constructor; cbn.
+    + reflexivity.
+    + reflexivity.
+    + reflexivity.
+    + intros Hf. discriminate Hf.
+    + reflexivity.
+    + intros i' Hi'. injection Hi' as <-. exists fr. repeat split; assumption.
+    + intros d1. unfold fupd. destruct (d1 =? fr); [reflexivity|apply e].
+    + split; intros j Hj; cbn in Hj; [injection Hj as <-; cbn; lia|discriminate Hj].
+    + split; intros j Hj; cbn in Hj; [injection Hj as <-; cbn; lia|discriminate Hj].
+    + exact Hflt.
+    + exact Hflt.
+    + intros d1 Hd1. injection Hd1 as <-. split; [reflexivity|]. exists nxt.
+      split; [reflexivity|]. split; [exact Hdat'|]. now rewrite fupd_eq.
+  - rewrite (dur_state_cur _ nxt fr); [cbn; now rewrite fupd_eq|reflexivity|reflexivity|exact Hsyn'].
+Qed.
+
+
+(* ------------------------------------------------------------------ events *)
+Lemma plan_good_all y o : WF y -> plan_good y o.
+Proof.
+  intros H. destruct o as [|b| |dlt c|].
+  - now apply plan_good_open.
+  - now apply plan_good_update.
+  - now apply plan_good_sync.
+  - now apply plan_good_recover.
+  - now apply plan_good_close.
+Qed.
+
+(** the logical state a system state denotes: what the durable view holds, is the machine open *)
+Definition denote (y : sys) : sstate := (dur_state ck (s_fs y), up (s_proc y)).
+
+Lemma crash_event_fs o k y :
+  s_fs (fst (do_event ck (EvCrash o k) y)) = fs_crash (mid_state ck o k y) /\
+  s_proc (fst (do_event ck (EvCrash o k) y)) = proc0 /\
+  s_fresh (fst (do_event ck (EvCrash o k) y)) = s_fresh y + 1.
+Proof.
+  unfold do_event, mid_state, steps_of.
+  destruct (plan ck o (s_fs y) (s_proc y) (s_fresh y)) as [steps r]. cbn. repeat split.
+Qed.
+
+Lemma mid_state_ok y o k :
+  WF y ->
+  mid_ok (s_fresh y + 1) (fst (denote y)) (fst (spec_op o (denote y))) (mid_state ck o k y).
+Proof.
+  intros H. destruct (plan_good_all y o H) as [Hall _].
+  unfold mid_state, steps_of. apply all_prefixes_firstn. exact Hall.
+Qed.
+
+Lemma event_step y e :
+  WF y ->
+  WF (fst (do_event ck e y)) /\
+  spec_step e (denote y) (denote (fst (do_event ck e y))) /\
+  snd (do_event ck e y) <> RPanic.
+Proof.
+  intros H. destruct e as [o|o k].
+  - destruct (plan_good_all y o H) as [_ (p' & Hp & Hwf & Hds & Hup)].
+    unfold do_event. destruct (plan ck o (s_fs y) (s_proc y) (s_fresh y)) as [steps r] eqn:Hpl.
+    cbn [fst snd] in *. subst r. cbn [fst snd].
+    split; [exact Hwf|]. split.
+    + unfold denote at 2. cbn [s_fs s_proc]. rewrite Hds, Hup.
+      replace (fst (spec_op o (dur_state ck (s_fs y), up (s_proc y))), snd (spec_op o (dur_state ck (s_fs y), up (s_proc y))))
+        with (spec_op o (denote y)) by (unfold denote; now destruct (spec_op o (dur_state ck (s_fs y), up (s_proc y)))).
+      constructor.
+    + unfold op_result. destruct (in_contract o (s_proc y)); discriminate.
+  - pose proof (mid_state_ok y o k H) as [Hdo Hst].
+    destruct (crash_event_fs o k y) as (E1 & E2 & E3).
+    split; [|split].
+    + destruct (fst (do_event ck (EvCrash o k) y)) as [s' p' f']. cbn in E1, E2, E3. subst s' p' f'.
+      apply crash_wf. exact Hdo.
+    + unfold denote at 2. rewrite E1, E2, dur_state_crash. cbn [up proc0 p_db].
+      destruct Hst as [-> | ->]; constructor.
+    + unfold do_event. destruct (plan ck o (s_fs y) (s_proc y) (s_fresh y)). cbn. discriminate.
+Qed.
+
+Lemma run_snoc evs e y : run ck (evs ++ [e]) y = fst (do_event ck e (run ck evs y)).
+Proof. unfold run. now rewrite fold_left_app. Qed.
+
+Lemma run_app a b y : run ck (a ++ b) y = run ck b (run ck a y).
+Proof. unfold run. apply fold_left_app. Qed.
+
+Lemma spec_op_mono o x : fst (fst x) <= fst (fst (spec_op o x)).
+Proof. destruct x as [[i m] u]. destruct o, u; cbn [spec_op fst snd]; lia. Qed.
+
+Lemma spec_step_mono e x x' : spec_step e x x' -> fst (fst x) <= fst (fst x').
+Proof.
+  intros Hs. destruct Hs as [o x|o k x|o k x]; cbn [fst].
+  - apply spec_op_mono.
+  - lia.
+  - apply spec_op_mono.
+Qed.
+
+Lemma run_wf evs : forall y, WF y -> WF (run ck evs y) /\ fst (dur_state ck (s_fs y)) <= fst (dur_state ck (s_fs (run ck evs y))).
+Proof.
+  induction evs as [|e evs IH]; intros y H.
+  - cbn. split; [exact H|lia].
+  - change (run ck (e :: evs) y) with (run ck evs (fst (do_event ck e y))).
+    destruct (event_step y e H) as (Hwf & Hsp & _).
+    destruct (IH _ Hwf) as [Hwf' Hle]. split; [exact Hwf'|].
+    apply spec_step_mono in Hsp. unfold denote in Hsp. cbn [fst] in Hsp. lia.
+Qed.
+
+Lemma denote0 : denote sys0 = (kv_init, false).
+Proof. reflexivity. Qed.
+
+Lemma run_spec evs : spec_reach evs (denote (run ck evs sys0)) /\ WF (run ck evs sys0).
+Proof.
+  induction evs as [|e evs IH] using rev_ind.
+  - unfold run. cbn [fold_left]. split; [rewrite denote0; constructor|apply wf0].
+  - destruct IH as [Hsp Hwf]. rewrite run_snoc.
+    destruct (event_step _ e Hwf) as (Hwf' & Hst & _).
+    split; [|exact Hwf']. eapply sr_snoc; [exact Hsp|exact Hst].
+Qed.
+
+(** ---- the explicit history *)
+Definition hden (h : hist) : sstate := (hist_state h, h_up h).
+
+Lemma hist_op_den o h : hden (hist_op o h) = spec_op o (hden h).
+Proof.
+  unfold hden, hist_op, spec_op, hist_state. destruct h as [snap ups u]. cbn [h_snap h_ups h_up].
+  destruct o as [|b| |dlt c|], u; cbn [h_snap h_ups h_up log_state fold_left]; try reflexivity.
+  unfold log_state. rewrite fold_left_app. reflexivity.
+Qed.
+
+Lemma spec_hist evs x : spec_reach evs x -> exists h, hist_reach evs h /\ hden h = x.
+Proof.
+  induction 1 as [|evs e x x' _ IH Hst].
+  - exists hist0. split; [constructor|reflexivity].
+  - destruct IH as (h & Hr & Hden). destruct Hst as [o x|o k x|o k x]; subst x.
+    + exists (hist_op o h). split; [eapply hr_snoc; [exact Hr|apply hs_op]|apply hist_op_den].
+    + exists (hist_down h). split; [eapply hr_snoc; [exact Hr|apply hs_crash_not]|reflexivity].
+    + exists (hist_down (hist_op o h)). split; [eapply hr_snoc; [exact Hr|apply hs_crash_done]|].
+      rewrite <- hist_op_den. reflexivity.
+Qed.
+
+(** ---- Open on a machine that is down *)
+Lemma open_ok y :
+  WF y -> p_db (s_proc y) = None ->
+  exists y', do_event ck (EvOp OOpen) y = (y', ROk (fst (dur_state ck (s_fs y)))) /\
+             open_state y' = Some (dur_state ck (s_fs y)) /\
+             acked_index y' = Some (fst (dur_state ck (s_fs y))).
+Proof.
+  intros H Hd.
+  destruct (plan_good_all y OOpen H) as [_ (p' & Hp & Hwf & Hds & Hup)].
+  unfold do_event. destruct (plan ck OOpen (s_fs y) (s_proc y) (s_fresh y)) as [steps r] eqn:Hpl.
+  cbn [fst snd] in *. subst r.
+  eexists. split; [|split].
+  - f_equal. unfold op_result, in_contract. rewrite Hd.
+    unfold up in Hup. rewrite Hd in Hup. cbn [spec_op snd] in Hup.
+    destruct (p_db p') as [d|] eqn:Hd'; [|discriminate Hup].
+    destruct (wf_up_dur_state _ d Hwf Hd') as (_ & Hlast & _). cbn [s_fs s_proc] in Hlast.
+    rewrite <- Hlast, Hds. unfold up. rewrite Hd. reflexivity.
+  - unfold open_state. cbn [s_proc s_fs].
+    unfold up in Hup. rewrite Hd in Hup. cbn [spec_op snd] in Hup.
+    destruct (p_db p') as [d|] eqn:Hd'; [|discriminate Hup].
+    destruct (wf_up_dur_state _ d Hwf Hd') as (Hst & _). cbn [s_fs s_proc] in Hst.
+    rewrite <- Hst, Hds. unfold up. rewrite Hd. reflexivity.
+  - unfold acked_index. cbn [s_proc].
+    unfold up in Hup. rewrite Hd in Hup. cbn [spec_op snd] in Hup.
+    destruct (p_db p') as [d|] eqn:Hd'; [|discriminate Hup].
+    destruct (wf_up_dur_state _ d Hwf Hd') as (_ & Hlast & _). cbn [s_fs s_proc] in Hlast.
+    rewrite <- Hlast, Hds. unfold up. rewrite Hd. reflexivity.
+Qed.
+
+(* ------------------------------------------------------------------ the property *)
+
+(** C16_recovery_inv.  After ANY history of calls and crashed calls (among them crashed Opens, i.e. crashes
+    during recovery from a crash, to any depth), and after ANY prefix of the steps of the next call, the
+    durable view is well formed (the durable pointer, if any, is intact and names a durable store directory),
+    stays so across the crash, and denotes a state that the history explains: every call that returned has
+    happened, every crashed call has happened entirely or not at all. *)
+Theorem recovery_inv evs o k :
+  let m := mid_state ck o k (run ck evs sys0) in
+  dur_wf ck m /\ dur_wf ck (fs_crash m) /\
+  exists h, hist_reach (evs ++ [EvCrash o k]) h /\ h_up h = false /\
+            dur_state ck m = hist_state h /\ dur_state ck (fs_crash m) = hist_state h.
+Proof.
+  intros m. destruct (run_spec evs) as [_ Hwf].
+  pose proof (mid_state_ok _ o k Hwf) as [[Hdw _] _]. fold m in Hdw.
+  split; [exact Hdw|]. split; [apply crash_dur_wf; exact Hdw|].
+  destruct (run_spec (evs ++ [EvCrash o k])) as [Hsp _].
+  destruct (spec_hist _ _ Hsp) as (h & Hr & Hden).
+  exists h. split; [exact Hr|].
+  rewrite run_snoc in Hden. unfold denote in Hden.
+  destruct (crash_event_fs o k (run ck evs sys0)) as (E1 & E2 & _).
+  rewrite E1, E2 in Hden. fold m in Hden. unfold hden in Hden.
+  injection Hden as Hs Hu. rewrite dur_state_crash in Hs |- *.
+  split; [exact Hu|]. split; symmetry; exact Hs.
+Qed.
+
+(** C16_reopen, general form: whenever the machine is down (after a crash at any point, or after Close),
+    Open succeeds and reports the index of a state explained by the history; Lookup then sees exactly
+    the last installed snapshot plus the updates after it. *)
+Theorem open_any evs :
+  p_db (s_proc (run ck evs sys0)) = None ->
+  exists h y', hist_reach evs h /\
+    do_event ck (EvOp OOpen) (run ck evs sys0) = (y', ROk (fst (hist_state h))) /\
+    open_state y' = Some (hist_state h).
+Proof.
+  intros Hd. destruct (run_spec evs) as [Hsp Hwf].
+  destruct (spec_hist _ _ Hsp) as (h & Hr & Hden).
+  destruct (open_ok _ Hwf Hd) as (y' & Hev & Hop & _).
+  unfold hden, denote in Hden. injection Hden as Hs _.
+  exists h, y'. rewrite Hs. repeat split; assumption.
+Qed.
+
+Theorem reopen_after_crash evs o k :
+  exists h y', hist_reach (evs ++ [EvCrash o k]) h /\
+    do_event ck (EvOp OOpen) (run ck (evs ++ [EvCrash o k]) sys0) = (y', ROk (fst (hist_state h))) /\
+    open_state y' = Some (hist_state h).
+Proof.
+  apply open_any. rewrite run_snoc.
+  destruct (crash_event_fs o k (run ck evs sys0)) as (_ & E2 & _). now rewrite E2.
+Qed.
+
+Theorem no_panic evs o : snd (do_event ck (EvOp o) (run ck evs sys0)) <> RPanic.
+Proof. destruct (run_spec evs) as [_ Hwf]. apply (event_step _ (EvOp o) Hwf). Qed.
+
+(** C16_acked: an index acknowledged at any time (the machine was open and its last returned call left
+    lastApplied = a) is never lost, whatever happens afterwards, crashes included. *)
+Theorem acked evs1 evs2 a o k :
+  acked_index (run ck evs1 sys0) = Some a ->
+  exists i y', do_event ck (EvOp OOpen) (run ck (evs1 ++ evs2 ++ [EvCrash o k]) sys0) = (y', ROk i) /\ a <= i.
+Proof.
+  intros Ha. destruct (run_spec evs1) as [_ Hwf1].
+  unfold acked_index in Ha. destruct (p_db (s_proc (run ck evs1 sys0))) as [d|] eqn:Hd; [|discriminate Ha].
+  injection Ha as <-.
+  destruct (wf_up_dur_state _ d Hwf1 Hd) as (_ & Hlast & _).
+  rewrite run_app.
+  destruct (run_wf (evs2 ++ [EvCrash o k]) _ Hwf1) as [Hwf2 Hle].
+  assert (Hdown : p_db (s_proc (run ck (evs2 ++ [EvCrash o k]) (run ck evs1 sys0))) = None).
+  { rewrite run_snoc. destruct (crash_event_fs o k (run ck evs2 (run ck evs1 sys0))) as (_ & E2 & _). now rewrite E2. }
+  destruct (open_ok _ Hwf2 Hdown) as (y' & Hev & _).
+  eexists. exists y'. split; [exact Hev|]. lia.
+Qed.
+
+(** what [acked_index] is: the index reported by the call that returned last *)
+Theorem ack_is_result evs o i :
+  o <> OClose -> in_contract o (s_proc (run ck evs sys0)) = true ->
+  snd (do_event ck (EvOp o) (run ck evs sys0)) = ROk i ->
+  acked_index (run ck (evs ++ [EvOp o]) sys0) = Some i.
+Proof.
+  intros Hnc Hc Hres. destruct (run_spec evs) as [_ Hwf]. rewrite run_snoc.
+  set (y := run ck evs sys0) in *.
+  destruct (plan_good_all y o Hwf) as [_ (p' & Hp & _ & _ & Hup)].
+  unfold do_event in *. destruct (plan ck o (s_fs y) (s_proc y) (s_fresh y)) as [steps r].
+  cbn [fst snd] in *. subst r. unfold op_result in Hres. rewrite Hc in Hres. injection Hres as <-.
+  unfold acked_index. cbn [s_proc].
+  assert (Hu : up p' = true).
+  { rewrite Hup. unfold in_contract in Hc. unfold up.
+    destruct o, (p_db (s_proc y)); cbn in *; try reflexivity; try discriminate Hc. contradiction. }
+  unfold up in Hu. destruct (p_db p'); [reflexivity|discriminate Hu].
 Qed.
 
 End Proofs.
